@@ -9,7 +9,7 @@ for d in $(ls -d seeded/C*-* | sort -V); do
   sd=$(basename $d); prop=${sd%-*}
   if ! echo " $claimed " | grep -q " $prop "; then echo -e "$sd\t-\t-\t-\tproperty not claimed" >> $out; continue; fi
   if [ -n "$(git -C /repo status --porcelain --untracked-files=no)" ]; then echo "repo dirty, abort"; exit 2; fi
-  if git -C /repo apply --3way $d/patch.diff >/dev/null 2>&1 && [ -z "$(git -C /repo diff --name-only --diff-filter=U)" ]; then
+  if git -C /repo apply --3way /verif/$d/patch.diff >/dev/null 2>&1 && [ -z "$(git -C /repo diff --name-only --diff-filter=U)" ]; then
     git -C /repo reset -q
     log=$(timeout 900 ./bin/goblvc check $prop -q 2>&1); rc=$?
     n=$(echo "$log" | grep -c "^VIOLATION")
